@@ -1427,7 +1427,9 @@ class ComputeGraph(MultiDiGraph):
             if type(n) is ComputeVar:
                 node_names.append(node)
             else:
-                node_names.append(list(self._get_inputs(node))[-1])
+                # the variable that the indexed assignment writes to is the first argument of the index operation
+                # (the last graph input is the index constant when the index is an array)
+                node_names.append(self._node_to_expr(node)[1].args[0].name)
             node_keys.append(node)
 
         keys, values, defined_vars, undefined_vars = [], [], [], []
